@@ -223,4 +223,32 @@ theorem HeapRect.bind {s : Heap} (hs : HeapRect s) (d : Nat) {r : Except Err Tab
 theorem Heap.query_fst (s : Heap) (r : Except Err Val) : (s.query r).1 = s := by
   unfold Heap.query; split <;> rfl
 
+/-- the handle an operation writes: its destination, or the table it assigns to; queries write nothing -/
+def Op.writes : Op → Option Nat
+  | .new d .. | .slice d .. | .mask d .. | .take d .. | .proj d .. | .call d .. | .relabel d ..
+  | .doo d .. | .concat d .. | .addrec d .. | .copy d .. => some d
+  | .setitem h .. | .delitem h .. | .update h .. => some h
+  | .len .. | .shape .. | .row .. | .col .. | .iter .. | .tup .. | .addnone .. => Option.none
+
+theorem Heap.put_getElem? (s : Heap) (d : Nat) (t : Table) (i : Nat) (hi : i < s.length) (hd : d ≠ i) :
+    (s.put d t)[i]? = s[i]? := by
+  unfold Heap.put
+  split
+  · exact List.getElem?_set_ne hd
+  · exact List.getElem?_append_left hi
+
+theorem Heap.bind_getElem? (s : Heap) (d : Nat) (r : Except Err Table) (i : Nat) (hi : i < s.length)
+    (hd : d ≠ i) : (s.bind d r).1[i]? = s[i]? := by
+  unfold Heap.bind
+  split
+  · exact Heap.put_getElem? s d _ i hi hd
+  · rfl
+
+theorem Heap.bind_err (s : Heap) (d : Nat) (r : Except Err Table) (e : Err) (h : (s.bind d r).2 = .err e) :
+    (s.bind d r).1 = s := by
+  unfold Heap.bind at *
+  split
+  · rename_i t; simp at h
+  · rfl
+
 end Pyg
